@@ -181,6 +181,7 @@ class CommandPipeline:
         self._stderr_prefix = self._stderr_postfix = None
         self.term_pgid = None
         self._term_state = None  # saved terminal attrs for restoration
+        self._owner_thread = threading.get_ident()
         self.suspended = None
         self.output_format = self.spec.output_format
 
